@@ -4,6 +4,7 @@
 (* Recorded events (harness/drv_tcpstream.cpp):                                                              *)
 (*   Begin{...}                     configuration (informational)                                            *)
 (*   SendCall{t,idx,len}            thread t is about to call Transport::send / sendAsync with payload idx     *)
+(*                                  (t = "io": the call is made on the engine's own I/O thread, from a callback) *)
 (*   SendRet{t,idx,acc}             the call returned (acc = accepted)                                         *)
 (*   PeerRecv{idx,from,to}          the raw (or OpenSSL) peer read bytes [from,to) of payload idx, in stream   *)
 (*                                  order (every payload byte encodes (idx, offset); the peer decodes them)    *)
